@@ -1,7 +1,9 @@
 /* C17 harness: insertion sequences with task placement, data flushes and waits on 1..4 MPI
  * ranks, through the real DTD interface (parsec_dtd_insert_task, parsec_dtd_data_flush,
- * parsec_dtd_data_flush_all, parsec_taskpool_wait); one int32 tile per datum, owned by the rank
- * the case says.  Derived from harness/h_dtd.c (C03/C04, single rank).
+ * parsec_dtd_data_flush_all, parsec_taskpool_wait); one tile of NB int32 per datum, owned by the rank
+ * the case says.  A tile of value v holds v + i * PMOD in element i.  Two arena datatypes are attached:
+ * the whole tile (NB elements) and its leading part (NH elements); writers use the whole tile, a
+ * reader the whole tile (r) or the leading part (h), as the DTD API allows per parameter.  Derived from harness/h_dtd.c (C03/C04, single rank).
  *
  *   [mpiexec -n R] h_dtdflush <casefile> <outfile>
  *
@@ -14,7 +16,7 @@
  * case line:
  *   dtdflush <ranks> <ndata> <threads> <sched> <window> <threshold> <spin> <owners> | <item> ; <item> ; ...
  *   owners  comma separated owner rank of every datum (0 <= owner < ranks)
- *   item    task:   [@<rank>] <datum><r|w|x>[^] ...     ("." = no data)
+ *   item    task:   [@<rank>] <datum><r|h|w|x>[^] ...   ("." = no data; h = read through the leading-part datatype)
  *                   @<rank>: placed by a PARSEC_VALUE | PARSEC_AFFINITY parameter;
  *                   ^ after an access: PARSEC_AFFINITY on that flow (the task runs on the owner
  *                   of that tile); exactly one of the two per task
@@ -24,11 +26,13 @@
  *   The harness ends every case with F* ; ! (section "data:").
  *
  * observation line:
- *   in: <t>=<v>,<v> ... | snap: <v>,<v>,... <v>,... | data: v ... | runs: c ... | null=<k>
+ *   in: <t>=<v>,<v> ... | snap: <v>,<v>,... <v>,... | data: v ... | runs: c ... | null=<k> torn=<n>
  *   in    per task (numbered in insertion order) the values read through its r/x flows by the
  *         rank that ran it; snap: one group per "!" (owner's copy of every datum, in datum order);
  *   data  owner's copy of every datum after the final flush_all + wait; runs: executions per task
- *         summed over the ranks; null: flows for which a body got a NULL pointer. */
+ *         summed over the ranks; null: flows for which a body got a NULL pointer; torn: elements a body
+ *         could see (NB for r/x, NH for h) that did not belong to the value of element 0.
+ *   A tile is printed as its value v when every element i holds v + i * PMOD, else as e0/e1/../e(NB-1). */
 #include "parsec/runtime.h"
 #include "parsec/data_dist/matrix/two_dim_rectangle_cyclic.h"
 #include "parsec/interfaces/dtd/insert_function.h"
@@ -47,6 +51,8 @@
 #define MAXS 48            /* wait points of a case */
 #define MAXR 8
 #define PMOD 1000003u
+#define NB 4               /* int32 per tile */
+#define NH 2               /* leading part seen through the second datatype */
 
 typedef struct { int nacc; int d[MAXF]; char m[MAXF]; int rank; int aff; } task_t;   /* aff: flow carrying PARSEC_AFFINITY or -1 */
 typedef struct { char kind; int arg; } item_t;     /* 'T' task index, 'F' datum (-1 = all), '!' */
@@ -63,11 +69,11 @@ static int my_rank, world, dbg;
 static int32_t obs_in[MAXT][MAXF];
 static int32_t obs_null[MAXT][MAXF];
 static int32_t runs[MAXT];
-static int32_t snaps[MAXS + 1][MAXD];
-static int32_t nulls;
+static int32_t snaps[MAXS + 1][MAXD][NB];
+static int32_t nulls, torn;
 static parsec_taskpool_t *g_tp;
 static parsec_data_collection_t *g_A;
-static int g_region;
+static int g_region, g_head;
 static int32_t *home[MAXD];          /* owner's storage of tile d (NULL on the other ranks) */
 
 static uint32_t Fval(int tid, const int32_t *in, int n) {
@@ -99,24 +105,33 @@ static int body(parsec_execution_stream_t *es, parsec_task_t *this_task) {
     int32_t in[MAXF]; int nin = 0;
     for (int j = 0; j < t->nacc; j++) {
         if (NULL == p[j]) { obs_null[tid][j] = 1; parsec_atomic_fetch_inc_int32(&nulls); }
-        if (t->m[j] != 'w') { in[nin] = p[j] ? *(volatile int32_t *)p[j] : -1; obs_in[tid][nin] = in[nin]; nin++; }
+        if (t->m[j] != 'w') {
+            in[nin] = p[j] ? *(volatile int32_t *)p[j] : -1; obs_in[tid][nin] = in[nin]; nin++;
+            if (p[j]) for (int i = 1; i < (t->m[j] == 'h' ? NH : NB); i++)
+                if (((volatile int32_t *)p[j])[i] != in[nin - 1] + i * (int32_t)PMOD) {
+                    parsec_atomic_fetch_inc_int32(&torn);
+                    if (dbg) fprintf(stderr, "[%d] task %d flow %d element %d is %d, element 0 is %d\n", my_rank, tid, j, i,
+                                     (int)((volatile int32_t *)p[j])[i], (int)in[nin - 1]);
+                }
+        }
     }
     spin_for(tid);
     uint32_t v = Fval(tid, in, nin);
     for (int j = 0; j < t->nacc; j++)
-        if (t->m[j] != 'r' && p[j]) *(volatile int32_t *)p[j] = (int32_t)v;
+        if (t->m[j] != 'r' && t->m[j] != 'h' && p[j])
+            for (int i = 0; i < NB; i++) ((volatile int32_t *)p[j])[i] = (int32_t)v + i * (int32_t)PMOD;
     parsec_atomic_fetch_inc_int32(&runs[tid]);
     if (dbg) fprintf(stderr, "[%d] ran task %d\n", my_rank, tid);
     return PARSEC_HOOK_RETURN_DONE;
 }
 
 /* tile d is tile (owner[d] + ranks * d, 0) of a (ranks x 1) block-cyclic matrix of (ranks * ndata) x 1
- * tiles of one int32: any ownership map is a choice of rows */
+ * tiles of NB int32: any ownership map is a choice of rows */
 static parsec_data_key_t key_of(int d) { return g_A->data_key(g_A, C.owner[d] + C.ranks * d, 0); }
 static parsec_dtd_tile_t *tile_of(int d) { return PARSEC_DTD_TILE_OF_KEY(g_A, key_of(d)); }
 
-static int opf(char m) { return m == 'r' ? PARSEC_INPUT : m == 'w' ? PARSEC_OUTPUT : PARSEC_INOUT; }
-#define ARG(j) PASSED_BY_REF, tile_of(t->d[j]), (opf(t->m[j]) | g_region | ((j) == t->aff ? PARSEC_AFFINITY : 0))
+static int opf(char m) { return (m == 'r' || m == 'h') ? PARSEC_INPUT : m == 'w' ? PARSEC_OUTPUT : PARSEC_INOUT; }
+#define ARG(j) PASSED_BY_REF, tile_of(t->d[j]), (opf(t->m[j]) | (t->m[j] == 'h' ? g_head : g_region) | ((j) == t->aff ? PARSEC_AFFINITY : 0))
 static void insert_one(int tid) {
     const task_t *t = &C.t[tid];
     int rk = t->rank;
@@ -178,7 +193,7 @@ static int parse_case(const char *line, case_t *c) {
                 if (*s == '@') { char *e; long r = strtol(s + 1, &e, 10); if (e == s + 1 || r < 0 || r >= c->ranks) return 0; t->rank = (int)r; s = e; continue; }
                 char *e; long d = strtol(s, &e, 10);
                 if (e == s || d < 0 || d >= c->ndata || t->nacc >= MAXF) return 0;
-                if (*e != 'r' && *e != 'w' && *e != 'x') return 0;
+                if (*e != 'r' && *e != 'w' && *e != 'x' && *e != 'h') return 0;
                 t->d[t->nacc] = (int)d; t->m[t->nacc] = *e; e++;
                 if (*e == '^') { if (t->aff >= 0) return 0; t->aff = t->nacc; e++; }
                 t->nacc++;
@@ -211,19 +226,20 @@ static int ctx_init(const case_t *c) {
 }
 
 static void snapshot(int k) {
-    for (int d = 0; d < C.ndata; d++) snaps[k][d] = home[d] ? *(volatile int32_t *)home[d] : 0;
+    for (int d = 0; d < C.ndata; d++)
+        for (int i = 0; i < NB; i++) snaps[k][d][i] = home[d] ? ((volatile int32_t *)home[d])[i] : 0;
 }
 
 /* returns NULL or a static error text */
 static const char *run_case(int *nsnap_out) {
     int rc, nsnap = 0;
     memset(obs_in, 0, sizeof obs_in); memset(obs_null, 0, sizeof obs_null);
-    memset(runs, 0, sizeof runs); memset(snaps, 0, sizeof snaps); nulls = 0;
+    memset(runs, 0, sizeof runs); memset(snaps, 0, sizeof snaps); nulls = 0; torn = 0;
 
     parsec_matrix_block_cyclic_t *m = calloc(1, sizeof(*m));
     int mt = C.ranks * C.ndata;
     parsec_matrix_block_cyclic_init(m, PARSEC_MATRIX_INTEGER, PARSEC_MATRIX_TILE, my_rank,
-                                    1, 1, mt, 1, 0, 0, mt, 1, C.ranks, 1, 1, 1, 0, 0);
+                                    NB, 1, mt * NB, 1, 0, 0, mt * NB, 1, C.ranks, 1, 1, 1, 0, 0);
     m->mat = parsec_data_allocate((size_t)m->super.nb_local_tiles * (size_t)m->super.bsiz *
                                   (size_t)parsec_datadist_getsizeoftype(m->super.mtype));
     memset(m->mat, 0, (size_t)m->super.nb_local_tiles * (size_t)m->super.bsiz * sizeof(int32_t));
@@ -234,13 +250,15 @@ static const char *run_case(int *nsnap_out) {
         if (C.owner[d] == my_rank) {
             parsec_data_t *dt = g_A->data_of(g_A, C.owner[d] + C.ranks * d, 0);
             home[d] = (int32_t *)PARSEC_DATA_COPY_GET_PTR(dt->device_copies[0]);
-            *home[d] = 100 + d;
+            for (int i = 0; i < NB; i++) home[d][i] = 100 + d + i * (int32_t)PMOD;
         }
     }
 
     g_tp = parsec_dtd_taskpool_new();
-    parsec_arena_datatype_t *adt = parsec_matrix_adt_new_rect(parsec_datatype_int32_t, 1, 1, 1);
+    parsec_arena_datatype_t *adt = parsec_matrix_adt_new_rect(parsec_datatype_int32_t, NB, 1, NB);
     parsec_dtd_attach_arena_datatype(ctx, adt, &g_region);
+    parsec_arena_datatype_t *adth = parsec_matrix_adt_new_rect(parsec_datatype_int32_t, NH, 1, NH);
+    parsec_dtd_attach_arena_datatype(ctx, adth, &g_head);
     parsec_dtd_data_collection_init(g_A);
     rc = parsec_context_add_taskpool(ctx, g_tp);
     if (rc < 0) return "<add_taskpool failed>";
@@ -277,7 +295,15 @@ static const char *run_case(int *nsnap_out) {
     parsec_tiled_matrix_destroy((parsec_tiled_matrix_t *)m);
     free(m);
     parsec_dtd_free_arena_datatype(ctx, g_region);
+    parsec_dtd_free_arena_datatype(ctx, g_head);
     return NULL;
+}
+
+static void print_tile(FILE *out, const int32_t *e) {
+    int ok = 1;
+    for (int i = 1; i < NB; i++) if (e[i] != e[0] + i * (int32_t)PMOD) ok = 0;
+    if (ok) { fprintf(out, "%d", (int)e[0]); return; }
+    for (int i = 0; i < NB; i++) fprintf(out, "%s%d", i ? "/" : "", (int)e[i]);
 }
 
 int main(int argc, char **argv) {
@@ -291,7 +317,7 @@ int main(int argc, char **argv) {
     dbg = getenv("H_DTDFLUSH_DEBUG") != NULL;
     if (my_rank == 0) { out = fopen(argv[2], "a"); if (!out) { perror(argv[2]); MPI_Abort(MPI_COMM_WORLD, 2); } }
     int started = 0;
-    static int32_t r_in[MAXT][MAXF], r_null[MAXT][MAXF], r_runs[MAXT], r_snaps[MAXS + 1][MAXD];
+    static int32_t r_in[MAXT][MAXF], r_null[MAXT][MAXF], r_runs[MAXT], r_snaps[MAXS + 1][MAXD][NB];
     while ((l = hc_next(f))) {
         if (strncmp(l, "dtdflush ", 9) || !parse_case(l, &C) || C.ranks != world) {
             if (out) { fprintf(out, "<bad case>\n"); fflush(out); }
@@ -307,12 +333,13 @@ int main(int argc, char **argv) {
         int bad = err != NULL, anybad = 0;
         MPI_Allreduce(&bad, &anybad, 1, MPI_INT, MPI_MAX, MPI_COMM_WORLD);
         if (anybad) { if (out) { fprintf(out, "%s\n", err ? err : "<failure on another rank>"); fflush(out); } continue; }
-        int32_t r_nulls = 0;
+        int32_t r_nulls = 0, r_torn = 0;
         MPI_Reduce(obs_in, r_in, MAXT * MAXF, MPI_INT32_T, MPI_SUM, 0, MPI_COMM_WORLD);
         MPI_Reduce(obs_null, r_null, MAXT * MAXF, MPI_INT32_T, MPI_SUM, 0, MPI_COMM_WORLD);
         MPI_Reduce(runs, r_runs, MAXT, MPI_INT32_T, MPI_SUM, 0, MPI_COMM_WORLD);
-        MPI_Reduce(snaps, r_snaps, (MAXS + 1) * MAXD, MPI_INT32_T, MPI_SUM, 0, MPI_COMM_WORLD);
+        MPI_Reduce(snaps, r_snaps, (MAXS + 1) * MAXD * NB, MPI_INT32_T, MPI_SUM, 0, MPI_COMM_WORLD);
         MPI_Reduce(&nulls, &r_nulls, 1, MPI_INT32_T, MPI_SUM, 0, MPI_COMM_WORLD);
+        MPI_Reduce(&torn, &r_torn, 1, MPI_INT32_T, MPI_SUM, 0, MPI_COMM_WORLD);
         if (!out) continue;
         fprintf(out, "in:");
         for (int i = 0; i < C.ntasks; i++) {
@@ -329,13 +356,13 @@ int main(int argc, char **argv) {
         fprintf(out, " | snap:");
         for (int s = 0; s < nsnap; s++) {
             fprintf(out, " ");
-            for (int d = 0; d < C.ndata; d++) fprintf(out, "%s%d", d ? "," : "", (int)r_snaps[s][d]);
+            for (int d = 0; d < C.ndata; d++) { fprintf(out, "%s", d ? "," : ""); print_tile(out, r_snaps[s][d]); }
         }
         fprintf(out, " | data:");
-        for (int d = 0; d < C.ndata; d++) fprintf(out, " %d", (int)r_snaps[nsnap][d]);
+        for (int d = 0; d < C.ndata; d++) { fprintf(out, " "); print_tile(out, r_snaps[nsnap][d]); }
         fprintf(out, " | runs:");
         for (int i = 0; i < C.ntasks; i++) fprintf(out, " %d", (int)r_runs[i]);
-        fprintf(out, " | null=%d\n", (int)r_nulls);
+        fprintf(out, " | null=%d torn=%d\n", (int)r_nulls, (int)r_torn);
         fflush(out);
     }
     if (started) parsec_fini(&ctx);
